@@ -77,6 +77,8 @@ var hdrMutations = []hdrMutation{
 		// 8-bit truncation of the 4-byte form: byte(...) around a uint64 sum
 		edits: []hdrEdit{{"Sparse6Decode", "n = (uint64(s[1]-63) << 12) + (uint64(s[2]-63) << 6) + uint64(s[3]-63)",
 			"n = uint64(byte((uint64(s[1]-63) << 12) + (uint64(s[2]-63) << 6) + uint64(s[3]-63)))"}}},
+	{name: "g6enc-detached-early-return-bound-2", lemma: "graph6_encode_header_regenerated",
+		edits: []hdrEdit{{"Graph6Encode", "\tif n <= 1 {\n\t\treturn string(rune(n + 63))\n\t} else if n <= 62 {", "\tif n <= 2 {\n\t\treturn string(rune(n + 63))\n\t}\n\tif n <= 62 {"}}},
 	// ---- outside the recognised shape: the translator fails closed
 	{name: "g6enc-unknown-call", lemma: "graph6_encode_header_regenerated", wantErr: true,
 		edits: []hdrEdit{{"Graph6Encode", "s[3] = byte(n&63) + 63", "s[3] = byte(bits.Len(uint(n))&63) + 63"}}},
@@ -97,6 +99,11 @@ var hdrMutations = []hdrMutation{
 			{"Graph6Encode", "\t\ts[2] = byte((n>>6)&63) + 63\n\t\ts[3] = byte(n&63) + 63\n\t} else if n <= 68719476735", "\t\ts[3] = byte(n&63) + 63\n\t\ts[2] = byte((n>>6)&63) + 63\n\t} else if 68719476735 >= n"}}},
 	{name: "harmless-mask-then-truncate",
 		edits: []hdrEdit{{"Sparse6Encode", "s[8] = byte(n&63) + 63", "s[8] = byte(n)&63 + 63"}}},
+	{name: "harmless-detached-early-return",
+		edits: []hdrEdit{{"Graph6Encode", "\t\treturn string(rune(n + 63))\n\t} else if n <= 62 {", "\t\treturn string([]byte{byte(n + 63)})\n\t}\n\tif n <= 62 {"}}},
+	{name: "harmless-decoder-else-if-length",
+		edits: []hdrEdit{{"Sparse6Decode", "\t} else {\n\t\tif len(s) < 8 {\n\t\t\treturn &SparseGraph{}, errors.New(\"String too short - unable to decode n\")\n\t\t}\n",
+			"\t} else if len(s) < 8 {\n\t\treturn &SparseGraph{}, errors.New(\"String too short - unable to decode n\")\n\t} else {\n"}}, same: true},
 	{name: "harmless-decoder-multiplication",
 		edits: []hdrEdit{{"Graph6Decode", "(uint64(s[1]-63) << 12)", "uint64(s[1]-63)*4096"}}},
 	{name: "harmless-decoder-subtract-in-uint64",
